@@ -119,6 +119,8 @@ pub struct Ctx {
     pub scripts: HashMap<(String, usize), AttScript>,
     next_wid: u64,
     gates: Vec<GateSt>,
+    /// user code panics in the SYNCHRONOUS part of the call (before a future is returned) where it can
+    eager: bool,
     /// callbacks of scenarios currently inside user code (for C06/C07 monitors)
     pub epoch: Instant,
 }
@@ -212,7 +214,17 @@ pub struct RW {
 
 impl World for RW {
     type Error = String;
-    async fn new() -> Result<Self, String> {
+    #[allow(clippy::manual_async_fn)]
+    fn new() -> impl Future<Output = Result<Self, String>> {
+        // eager mode: the whole body runs in the call itself; the returned future is ready
+        let eager = with(|c| c.eager);
+        let early = if eager { Some(Self::new_body()) } else { None };
+        async move { if let Some(r) = early { r } else { Self::new_body() } }
+    }
+}
+
+impl RW {
+    fn new_body() -> Result<Self, String> {
         let (scen, att) = with(|c| {
             let s = c.last_tx_scen.clone().unwrap_or_default();
             let a = c.cur_attempt.get(&s).copied().unwrap_or(0);
@@ -249,6 +261,19 @@ fn step_ident(st: &gherkin::Step) -> (bool, usize) {
 }
 
 fn step_fn(w: &mut RW, ctx: step::Context) -> LocalBoxFuture<'_, ()> {
+    if with(|c| c.eager) {
+        let (bg, i) = step_ident(&ctx.step);
+        let sc = script_for(&w.scen, w.att);
+        if sc.gates == 0 {
+            log(format!("CB step {} {} {} {} w={} seen={} t={}", w.scen, w.att, if bg { "bg" } else { "st" }, i, w.id, w.counter, now_ns()));
+            w.counter += 1;
+            log(format!("CB stepx {} {} {} {} t={}", w.scen, w.att, if bg { "bg" } else { "st" }, i, now_ns()));
+            if let Some(p) = sc.step_panics.get(&(bg, i)) {
+                p.fire();
+            }
+            return async {}.boxed_local();
+        }
+    }
     async move {
         let (bg, i) = step_ident(&ctx.step);
         let sc = script_for(&w.scen, w.att);
@@ -269,6 +294,19 @@ fn before_hook<'a>(
     s: &'a gherkin::Scenario,
     w: &'a mut RW,
 ) -> LocalBoxFuture<'a, ()> {
+    if with(|c| c.eager) {
+        let att = with(|c| c.cur_attempt.get(&s.name).copied().unwrap_or(0));
+        let sc = script_for(&s.name, att);
+        if sc.gates == 0 {
+            log(format!("CB before {} {att} w={} seen={} wscen={} t={}", s.name, w.id, w.counter, w.scen, now_ns()));
+            w.counter += 1;
+            log(format!("CB beforex {} {att} t={}", s.name, now_ns()));
+            if let Some(p) = sc.before {
+                p.fire();
+            }
+            return async {}.boxed_local();
+        }
+    }
     async move {
         let att = with(|c| c.cur_attempt.get(&s.name).copied().unwrap_or(0));
         let sc = script_for(&s.name, att);
@@ -290,6 +328,29 @@ fn after_hook<'a>(
     fin: &'a event::ScenarioFinished,
     w: Option<&'a mut RW>,
 ) -> LocalBoxFuture<'a, ()> {
+    if with(|c| c.eager) {
+        let att = with(|c| c.cur_attempt.get(&s.name).copied().unwrap_or(0));
+        let sc = script_for(&s.name, att);
+        if sc.gates == 0 {
+            let reason = match fin {
+                event::ScenarioFinished::BeforeHookFailed(_) => "bhf",
+                event::ScenarioFinished::StepPassed => "pass",
+                event::ScenarioFinished::StepSkipped => "skip",
+                event::ScenarioFinished::StepFailed(..) => "fail",
+            };
+            log(format!(
+                "CB after {} {att} {reason} w={} t={}",
+                s.name,
+                w.as_ref().map_or_else(|| "-".to_owned(), |w| format!("{}:{}", w.id, w.counter)),
+                now_ns(),
+            ));
+            log(format!("CB afterx {} {att} t={}", s.name, now_ns()));
+            if let Some(p) = sc.after {
+                p.fire();
+            }
+            return async {}.boxed_local();
+        }
+    }
     async move {
         let att = with(|c| c.cur_attempt.get(&s.name).copied().unwrap_or(0));
         let sc = script_for(&s.name, att);
@@ -384,6 +445,9 @@ pub struct RunCfg {
     /// explicit environment moves taken (in order) before falling back to the PRNG:
     /// 0 = open the oldest waiting gate, 1 = wake the parser
     pub env_script: Vec<u8>,
+    /// user callbacks without gates run (and panic) synchronously inside the call that is supposed to
+    /// only BUILD the future; `World::new` panics before returning its future
+    pub eager: bool,
 }
 
 impl Default for RunCfg {
@@ -403,6 +467,7 @@ impl Default for RunCfg {
             custom_which: false,
             max_polls: 2_000_000,
             gate_delay_us: 0,
+            eager: false,
             env_script: vec![],
         }
     }
@@ -471,6 +536,7 @@ pub fn run(
             scripts,
             next_wid: 0,
             gates: vec![],
+            eager: cfg.eager,
             epoch: Instant::now(),
         });
     });
